@@ -1,5 +1,6 @@
 #![allow(dead_code)]
 mod asm;
+mod c10;
 mod campaign;
 mod compare;
 mod components;
